@@ -113,7 +113,14 @@ func (c16) Gen(rs uint64, tier string, race bool) interface{} {
 				}
 				e.Write(b)
 			} else {
-				for k := r.Range(1, max(1, ncod/3-1)); k > 0; k-- {
+				// (the first codon is one of E F I L P Q: a protein spelt with nucleotide-code letters only - M S N ... -
+				// is taken for DNA by the pairwise aligner, which then refuses '*': an alignment error, outside the statement)
+				for k, first := r.Range(1, max(1, ncod/3-1)), true; k > 0; k-- {
+					if first {
+						e.WriteString(c16Codons[r.Intn(6)])
+						first = false
+						continue
+					}
 					e.WriteString(c16Codons[r.Intn(len(c16Codons))])
 				}
 			}
@@ -345,7 +352,8 @@ func longestORFLen(s string) int {
 func (c16) RaceCounts(ci interface{}, o *Outcome) bool {
 	// the statement promises schedule independence and race freedom "when no
 	// error occurs"; reports on the error path are recorded, not alarmed
-	return ci.(*C16Case).BadAt < 0
+	// (a natural alignment error - no injected sequence - puts the run on the error path as well)
+	return ci.(*C16Case).BadAt < 0 && o.Stats["alignment_error_reported"] == 0 && o.Stats["phase_call_error"] == 0
 }
 
 func (c16) Run(ctx *Ctx, ci interface{}) (o Outcome) {
